@@ -725,6 +725,12 @@ def compare(main: str, lines, impl, index, kept, file_backed: bool, where: str) 
     for k, (m, i) in enumerate(zip(out, impl)):
         if lines[k][0] == "req":
             m = canon_out(m, file_backed)
+            q = lines[k][1]
+            if file_backed and (q["limit"] is not None or q["cursor"] is not None) and len(q["path"]) <= 2 \
+                    and all(isinstance(x, list) and x and x[0] == "resp" and x[3][0] == "page" for x in (m, i)):
+                # a file-backed store lists in directory order: which objects fall into a page is not determined
+                m = ["resp", m[1], m[2], ["page", len(m[3][1]), m[3][2]]]
+                i = ["resp", i[1], i[2], ["page", len(i[3][1]), i[3][2]]]
         elif lines[k][0] == "view":
             m = [fix_view(x) for x in m]
             if file_backed:
@@ -767,14 +773,14 @@ def correspond(ctx: C.Ctx, cov: C.Coverage, main: str = "C10") -> List[C.Disagre
                 "and 7 Content-Type variants, limit/cursor/level values, plus all histories of length <= 3 over 8 requests on two ids; after every "
                 "request status, Location, canonical payload and the complete store snapshot are compared with the model. non-trivial = the "
                 "history contains a successful write followed by a read; distinct = by (method, path length, status) sequence")
-    hs = gen_histories(ctx, rng, ctx.budget(250, 4000), (4, 14), 0.15)
+    hs = gen_histories(ctx, rng, ctx.budget(250, 2200), (4, 14), 0.15)
     ex = exhaustive_short(rng) if ctx.tier == "thorough" else [h for h in exhaustive_short(rng) if len(h) <= 2]
     dis: List[C.Disagreement] = []
     lines, impl, index, kept = run_histories(hs + ex, False, cov, "dict")
     dis += compare(main, lines, impl, index, kept, False, "dict store")
     cov.extra["exhaustive_short_histories"] = len(ex)
     # file-backed store: same handlers, persistence only through commit()
-    hf = gen_histories(ctx, rng, ctx.budget(25, 400), (4, 12), 0.1)
+    hf = gen_histories(ctx, rng, ctx.budget(25, 300), (4, 12), 0.1)
     lines, impl, index, kept2 = run_histories(hf, True, cov, "file")
     dis += compare(main, lines, impl, index, kept2, True, "file store")
     cov.samples = [[(R["m"], url_of(R)) for R in kept[0]], [(R["m"], url_of(R)) for R in kept2[0]]]
@@ -1178,7 +1184,7 @@ def oracle(ctx: C.Ctx, cov: C.Coverage) -> List[C.Failing]:
     rng = random.Random(f"C10-oracle:{ctx.seed}")
     out: List[C.Failing] = []
     sigs = set()
-    n = ctx.budget(120, 1500)
+    n = ctx.budget(120, 900)
     for hi in range(n):
         ops = gen_semantic_ops(rng, rng.randint(3, 10), True)
         fb = hi % 5 == 4
